@@ -14,7 +14,7 @@ VERIF = engine.VERIF
 KF_FILE = os.path.join(VERIF, "known_findings.json")
 
 COMMON_STUBS = [
-    "log model: esp_pylib.logger.log replaced inside repo modules by a recorder (messages not rendered)",
+    "log model: esp_pylib.logger.log replaced inside repo modules by a recorder (messages are not written anywhere; concrete message parts are passed through rich.markup.render when markup is enabled; note/hint go to the info stream configured on the real logger)",
     "KconfigReport singleton reset before every Kconfig()",
     "Kconfig instances are built from concrete tree text outside tracing (NoTracing); all evaluation runs traced",
 ]
@@ -153,7 +153,7 @@ def main(argv=None):
         funcs.update(r.get("functions", []))
     samples = []
     for job, res in list(zip(jobs, results))[:: max(1, len(jobs) // 6)][:8]:
-        samples.append({"job": job.name, "tree": job.tree, "symbolic_params": job.params, "bounds": job.pre + ((" and " + job.assume) if job.assume else ""), "verdict": res["verdict"], "paths": res.get("paths"), "native_sample": (job.samples[0] if job.samples else None)})
+        samples.append({"job": job.name, "tree": job.tree, "symbolic_params": job.params, "bounds": job.pre + ((" and " + job.assume) if job.assume else ""), "fixed_by_partition": job.ctx.get("fixed"), "verdict": res["verdict"], "paths": res.get("paths"), "native_sample": (job.samples[0] if job.samples else None)})
     info = getattr(mod, "INFO", {})
     ev = {
         "property_id": prop,
